@@ -61,7 +61,7 @@ def boundary_values(m, rnd, extra=()):
     # aliases of discriminants under truncation to a narrower width (a bound test or cast done in the wrong type)
     picks = [m.min, m.max, 0, -1] + [m.sorted_values[rnd.randrange(m.n)] for _ in range(6)]
     for v in picks:
-        for w in (8, 16, 32, 64):
+        for w in (7, 8, 15, 16, 31, 32, 63, 64):
             for k in (1, -1, 2, -2):
                 vs.add(v + k * (1 << w))
             vs.add(v ^ (1 << (w - 1)))
